@@ -3,6 +3,7 @@
   harness/hsolq.cpp which drives the real DenseSolver<Q,…> / SparseSolver<Q,int,Mode,…>.
 -/
 import PiqpModel.Api
+import PiqpModel.Checkers
 import PiqpModel.Driver.Parse
 import PiqpModel.Driver.KKTCmd
 
@@ -15,6 +16,7 @@ structure SM where
   sqrtMode : Int
   be : Backend
   pk : PrecKind
+  last : Status := .unsolved
 
 def defaultConsts : Consts QQ :=
   { minScaling := 0, maxScaling := 0, ruizEps := 0, piqpInf := 0, posInf := QQ.pinf, machEps := 0, c0_95 := 0, c0_666 := 0,
@@ -141,7 +143,8 @@ def smNew : P SM := do
 def smStep (sm : SM) (cmd : String) : P (SM × List String) := do
   let step (call : Call QQ) : SM × List String :=
     let (api', out) := apiStep sm.cs (QQ.sqrtMode sm.sqrtMode) QQ.poison sm.api call
-    ({ sm with api := api' }, [outcomeLine out])
+    let last := match out with | .status s => s | _ => sm.last
+    ({ sm with api := api', last := last }, [outcomeLine out])
   match cmd with
   | "sol.consts" =>
     let cs ← parseConsts
@@ -173,6 +176,35 @@ def smStep (sm : SM) (cmd : String) : P (SM × List String) := do
   | "sol.sqrtmode" =>
     let k ← int
     pure ({ sm with sqrtMode := k }, [])
+  | "sol.check" =>
+    -- evaluate the property predicates on the current results against the user's effective problem
+    let a ← parseArgs {}
+    match sm.api.sol, a.P, a.c with
+    | some sv, some P, some c =>
+      let n := sv.n; let p := sv.p; let m := sv.m
+      let optB (v : Option (RawVec QQ)) : Vector (Option QQ) n :=
+        Vector.ofFn fun j => match v with
+          | none => none
+          | some v => match v.data.getD j.val QQ.poison with
+            | QQ.fin r => some (QQ.fin r)
+            | _ => none
+      let u : UserProblem QQ n p m :=
+        { P := P.toMat n n, c := c.toVec n,
+          A := match a.A with | some A => A.toMat p n | none => Mat.ofFn fun _ _ => 0,
+          b := match a.b with | some b => b.toVec p | none => Vec.const p 0,
+          G := match a.G with | some G => G.toMat m n | none => Mat.ofFn fun _ _ => 0,
+          h := match a.h with | some h => h.toVec m | none => Vec.const m 0,
+          lb := optB a.lb, ub := optB a.ub }
+      let w := sv.s.w
+      let q : Point QQ n p m := ⟨w.x, w.y, w.z, w.z_lb, w.z_ub, w.s, w.s_lb, w.s_ub⟩
+      let status : Status := sm.last
+      let isFin : QQ → Bool := fun v => match v with | QQ.fin _ => true | _ => false
+      let half : QQ := QQ.fin (1 / 2)
+      let l1 := "#check cert " ++ " ".intercalate (certFails half sv.s.st u q)
+      let l2 := "#check wf " ++ " ".intercalate (wellFormedFails isFin QQ.pinf u q)
+      let l3 := "#check diag " ++ " ".intercalate (diagFails half sv.s.st u q sv.s.info status)
+      pure (sm, [l1, l2, l3])
+    | _, _, _ => pure (sm, ["#check none"])
   | "sol.dump" =>
     match sm.api.sol with
     | none => pure (sm, ["nosolver"])
